@@ -17,6 +17,8 @@ INFO = {
     "C01-B": ("SSE2 find_next_host_delimiter_special drops '\\' in the tail block", "special scheme, first host delimiter is a backslash located in the last partial 16-byte block (host text >= 16 bytes, length not a multiple of 16)"),
     "C02-A": ("url_aggregator::parse_ipv6 piece guard off by one before an embedded IPv4 tail: writes address[8]", "bracketed host with exactly seven hex pieces followed by a dotted IPv4 tail"),
     "C02-B": ("percent_decode remaining-length check off by one: reads one byte past the view", "special-scheme host ending in '%' + one hex digit as the very last bytes of an exactly sized buffer"),
+    "C02-C": ("compute_decomposition_length() uses a helper that returns 0 for Hangul syllables: decompose() writes in front of its buffer", "domain containing a precomposed Hangul syllable together with a non-NFC sequence (U+D55C U+00E9 U+0323)"),
+    "C02-D": ("clear_pathname() no longer subtracts the 2 bytes of the erased '/.' guard from search_start/hash_start", "host-less non-special URL carrying the '/.' guard, a query and an empty fragment, then set_pathname and get_hash (std::out_of_range escapes)"),
     "C03-A": ("update_base_search shifts hash_start by the un-encoded length", "url_aggregator with a fragment, set_search with a value needing percent-encoding"),
     "C03-B": ("set_host rolls the host back when the trailing port is rejected", "set_host('validhost:badport') on a non-file URL; both URL types change in step"),
     "C04-A": ("url::get_components() counts an empty-but-present query as 0 bytes", "URL of the shape ...?#...; only url::get_components().hash_start differs"),
